@@ -139,8 +139,8 @@ func (f *DeleteIf) inList(s *slip.Scope, seq slip.List, depth int, sfv *seqFunVa
 
 func (f *DeleteIf) inString(s *slip.Scope, seq slip.String, depth int, sfv *seqFunVars) slip.Object {
 	ra := []rune(seq)
-	if sfv.end < 0 || len(seq) < sfv.end {
-		sfv.end = len(seq)
+	if sfv.end < 0 || len(ra) < sfv.end {
+		sfv.end = len(ra)
 	}
 	d2 := depth + 1
 	var (
